@@ -27,6 +27,7 @@ type SpecEnv struct {
 	facts  *[]string // type invariants of heap values read by the formula being translated
 	goal   bool      // the formula is to be proved (facts become premises) rather than assumed (facts are conjoined)
 	deriveDepth int
+	deriving map[string]bool // ghost fields whose derivation is being expanded (no self-recursion)
 }
 
 var untypedInt = types.Typ[types.UntypedInt]
@@ -99,7 +100,7 @@ func (e *SpecEnv) readFact(t string, typ types.Type) {
 		return
 	}
 	switch typ.Underlying().(type) {
-	case *types.Basic, *types.Slice:
+	case *types.Basic, *types.Slice, *types.Pointer:
 		if f := e.c.typeFacts(t, typ, ""); f != "true" {
 			*e.facts = append(*e.facts, f)
 		}
@@ -287,7 +288,12 @@ func (e *SpecEnv) term(x Expr) (Val, error) {
 			}
 			nm := "q$" + bv.Name
 			binds = append(binds, "("+nm+" "+c.sortOf(t)+")")
-			ne.vars[bv.Name] = Val{T: nm, Typ: t}
+			bvv := Val{T: nm, Typ: t}
+			switch t.Underlying().(type) {
+			case *types.Array, *types.Struct:
+				bvv.NoFacts = true
+			}
+			ne.vars[bv.Name] = bvv
 			ne.bound[bv.Name] = true
 			if t != mathInt {
 				if _, isInt := intInfoOf(t); !isInt {
@@ -678,8 +684,10 @@ func (e *SpecEnv) selector(n *ESel) (Val, error) {
 		for i := 0; i < st.NumFields(); i++ {
 			if st.Field(i).Name() == n.Sel {
 				rt := c.structSel(t, i, x.T)
-				e.readFact(rt, st.Field(i).Type())
-				return Val{T: rt, Typ: st.Field(i).Type()}, nil
+				if !x.NoFacts {
+					e.readFact(rt, st.Field(i).Type())
+				}
+				return Val{T: rt, Typ: st.Field(i).Type(), NoFacts: x.NoFacts}, nil
 			}
 		}
 		return Val{}, fmt.Errorf("no field %s in %s", n.Sel, t)
@@ -712,7 +720,7 @@ func (e *SpecEnv) index(n *EIndex) (Val, error) {
 		e.readFact(rt, u.Elem())
 		return Val{T: rt, Typ: u.Elem()}, nil
 	case *types.Array:
-		return Val{T: "(select " + x.T + " " + e.idx(i) + ")", Typ: u.Elem()}, nil
+		return Val{T: "(select " + x.T + " " + e.idx(i) + ")", Typ: u.Elem(), NoFacts: x.NoFacts}, nil
 	case *types.Basic:
 		return Val{T: "(sat " + x.T + " " + e.idx(i) + ")", Typ: types.Typ[types.Byte]}, nil
 	case *types.Map:
@@ -871,6 +879,23 @@ func (e *SpecEnv) call(n *ECall) (Val, error) {
 			}
 			d, _ := c.mapHeaps(mt)
 			return Val{T: and(not(eq(m.T, "0")), "(select (select "+c.heapGet(e.cur, d, c.heapSort[d])+" "+m.T+") "+k.T+")"), Typ: boolT}, nil
+		case "sortperm", "sortinv":
+			v, err := e.term(n.Args[0])
+			if err != nil {
+				return Val{}, err
+			}
+			fn := c.lastPi
+			if name == "sortinv" {
+				fn = c.lastPiInv
+			}
+			if fn == "" {
+				return Val{}, fmt.Errorf("%s: no sort.Slice call precedes this point", name)
+			}
+			t := types.Type(mathInt)
+			if c.Mode == ModeBV {
+				t = types.Typ[types.Int]
+			}
+			return Val{T: "(" + fn + " " + e.idx(v) + ")", Typ: t}, nil
 		case "arr":
 			v, err := e.term(n.Args[0])
 			if err != nil {
@@ -896,6 +921,33 @@ func (e *SpecEnv) call(n *ECall) (Val, error) {
 				t = types.Typ[types.Int]
 			}
 			return Val{T: c.eidx(e.idx(a), e.idx(b)), Typ: t}, nil
+		case "oldghost":
+			// oldghost(g, x): ghost field g in the entry state of the object x denotes now
+			gid, ok := n.Args[0].(*EIdent)
+			if !ok || len(n.Args) != 2 {
+				return Val{}, fmt.Errorf("oldghost(ghostname, x)")
+			}
+			g, ok := c.W.Specs.Ghosts[gid.Name]
+			if !ok {
+				return Val{}, fmt.Errorf("oldghost: %s is not a ghost field", gid.Name)
+			}
+			v, err := e.term(n.Args[1])
+			if err != nil {
+				return Val{}, err
+			}
+			ne := e.clone()
+			ne.cur = e.old
+			return ne.ghostRead(g, v, e.deriveDepth)
+		case "ref":
+			v, err := e.term(n.Args[0])
+			if err != nil {
+				return Val{}, err
+			}
+			k, err := e.ghostKey(v)
+			if err != nil {
+				return Val{}, err
+			}
+			return Val{T: k, Typ: types.NewPointer(types.Typ[types.Int8])}, nil
 		case "base":
 			v, err := e.term(n.Args[0])
 			if err != nil {
@@ -952,6 +1004,19 @@ func (e *SpecEnv) call(n *ECall) (Val, error) {
 			}
 			c.declMkbytes()
 			return Val{T: "(mkbytes " + a.T + " " + e.idx(o) + " " + e.idx(l) + ")", Typ: bytesT}, nil
+		case "unboxed":
+			v, err := e.term(n.Args[0])
+			if err != nil {
+				return Val{}, err
+			}
+			tt, err := e.resolveType(exprString(n.Args[1]))
+			if err != nil {
+				return Val{}, err
+			}
+			if tt == mathInt {
+				tt = types.Typ[types.Int]
+			}
+			return Val{T: c.unbox(v.T, tt), Typ: tt}, nil
 		case "bytesEq", "sameBytes":
 			// extensional equality of two byte slices' contents
 			a, err := e.term(n.Args[0])
@@ -1180,6 +1245,14 @@ func (e *SpecEnv) applyUF(u *UFDecl, argExprs []Expr) (Val, error) {
 	}
 	c.declFun("uf$"+u.Name, srts, c.sortOf2(rt))
 	c.usedUF[u.Name] = true
+	if u.Name == "utf8valid" && !c.utf8Declared && c.Mode == ModeInt {
+		// ASCII string literals are valid UTF-8
+		c.utf8Declared = true
+		c.declFun("strbytes", []string{"Str"}, "Bytes")
+		for _, l := range c.asciiLits {
+			c.Decls = append(c.Decls, "(assert (uf$utf8valid (strbytes "+l+")))")
+		}
+	}
 	return Val{T: app("uf$"+u.Name, ts...), Typ: rt}, nil
 }
 
@@ -1380,9 +1453,18 @@ func (e *SpecEnv) targets(x Expr) ([]havocTarget, error) {
 				}
 				d, v := c.mapHeaps(mt)
 				return []havocTarget{{d, m.T, ""}, {v, m.T, ""}, {e.f.mapLenHeap(), m.T, ""}}, nil
-			case "allof":
-				// every object of a type: allof(T.f)
-				return nil, fmt.Errorf("allof not supported")
+			case "all":
+				// all(ghostname): the ghost field of every object
+				if gid, ok := n.Args[0].(*EIdent); ok {
+					if g, ok := c.W.Specs.Ghosts[gid.Name]; ok {
+						srt, _, err := e.ghostSort(g)
+						if err != nil {
+							return nil, err
+						}
+						return []havocTarget{{c.ghostHeap(gid.Name, srt), "", ""}}, nil
+					}
+				}
+				return nil, fmt.Errorf("all(...) takes a ghost field name")
 			}
 			if g, ok := c.W.Specs.Ghosts[id.Name]; ok {
 				v, err := e.term(n.Args[0])
@@ -1545,7 +1627,7 @@ func (e *SpecEnv) ghostRead(g *GhostDecl, v Val, depth int) (Val, error) {
 		c.Decls = append(c.Decls, "(assert (and (bvsle (_ bv0 64) "+gt+") (bvsle "+gt+" (_ bv4611686018427387904 64))))")
 	}
 	res := gt
-	if depth < 1 {
+	if !e.deriving[g.Name] {
 		for _, d := range c.W.Specs.Derives {
 			if d.Ghost != g.Name {
 				continue
@@ -1571,6 +1653,10 @@ func (e *SpecEnv) ghostRead(g *GhostDecl, v Val, depth int) (Val, error) {
 			ne.locals = false
 			ne.pkg = dpkg
 			ne.deriveDepth = depth + 1
+			ne.deriving = map[string]bool{g.Name: true}
+			for k2 := range e.deriving {
+				ne.deriving[k2] = true
+			}
 			dv, err := ne.term(d.Body)
 			if err != nil {
 				return Val{}, fmt.Errorf("derive %s: %v", d.Text, err)
@@ -1585,6 +1671,15 @@ func (e *SpecEnv) ghostRead(g *GhostDecl, v Val, depth int) (Val, error) {
 	}
 	if c.Mode == ModeBV && (g.Val == "mathint" || g.Val == "int") && res != gt {
 		c.Decls = append(c.Decls, "(assert (and (bvsle (_ bv0 64) "+res+") (bvsle "+res+" (_ bv4611686018427387904 64))))")
+	}
+	if e.facts != nil && t != nil && t != mathInt && t != bytesT {
+		switch t.Underlying().(type) {
+		case *types.Pointer, *types.Interface:
+			hv := c.heapGet(e.cur, h, c.heapSort[h])
+			if fr, ok := c.frontier[hv]; ok && fr != "" {
+				*e.facts = append(*e.facts, c.typeFacts(res, t, fr))
+			}
+		}
 	}
 	if c.Mode == ModeInt && (g.Val == "mathint" || g.Val == "int") && (g.Name == "accepted" || g.Name == "wrapped" || g.Name == "spos" || g.Name == "send") && e.facts != nil {
 		// stated assumption: byte counters of readers/writers stay in [0, 2^62]
@@ -1607,7 +1702,7 @@ func (e *SpecEnv) ghostTargets(g *GhostDecl, v Val, depth int) ([]havocTarget, e
 	}
 	h := c.ghostHeap(g.Name, srt)
 	out := []havocTarget{{h, k, ""}}
-	if depth >= 1 {
+	if e.deriving[g.Name] {
 		return out, nil
 	}
 	for _, d := range c.W.Specs.Derives {
@@ -1634,6 +1729,10 @@ func (e *SpecEnv) ghostTargets(g *GhostDecl, v Val, depth int) ([]havocTarget, e
 		ne.locals = false
 		ne.pkg = dpkg
 		ne.deriveDepth = depth + 1
+		ne.deriving = map[string]bool{g.Name: true}
+		for k2 := range e.deriving {
+			ne.deriving[k2] = true
+		}
 		ts, err := ne.targets(d.Body)
 		if err != nil {
 			return nil, err
